@@ -19,7 +19,7 @@ for d in sorted(glob.glob(os.path.join(VERIF, 'benign', '*', 'patch.diff'))):
     out[bid] = {}
     for prop in meta['properties']:
         env = dict(os.environ, PYVC_REPO=S)
-        p = subprocess.run(['python3-vt', os.path.join(VERIF, 'pyvc', 'check.py'), prop, '--tier', 'quick'], cwd=VERIF, env=env, capture_output=True, text=True, timeout=1800)
+        p = subprocess.run(['python3-vt', os.path.join(VERIF, 'pyvc', 'check.py'), prop, '--tier', 'quick', '--evidence', os.path.join(S, 'evidence.json')], cwd=VERIF, env=env, capture_output=True, text=True, timeout=1800)
         lines = p.stdout.splitlines()
         out[bid][prop] = dict(exit=p.returncode, violations=[l for l in lines if l.startswith('VIOLATION')][:3], undecided=[l[:200] for l in lines if l.startswith('UNDECIDED')][:4],
                               summary=lines[-1] if lines else p.stderr[-200:])
